@@ -75,6 +75,71 @@ def stable(pdu):
         return False
 
 
+def requestor_ac_cases():
+    """pynetdicom as requestor: conformant A-ASSOCIATE-AC PDUs whose two reserved 16-byte fields (bytes 11-42: PS3.8 Table 9-17,
+    "shall not be tested when received") hold whatever a peer may leave there.  The requestor must take each as Evt3."""
+    from neg_lab import recv_pdu
+    from pynetdicom import AE, evt
+    from pynetdicom.pdu import A_ASSOCIATE_AC
+
+    out = []
+    base = pn.ac_pdu().encode()
+    for fill in (None, 0x00, 0x20, 0x41, 0x5C, 0x09, 0xFF):
+        ac = bytearray(base)
+        if fill is not None:
+            ac[10:42] = bytes([fill]) * 32
+        srv = socket.socket()
+        srv.bind(("127.0.0.1", 0))
+        srv.listen(1)
+        port = srv.getsockname()[1]
+
+        def peer(ac=bytes(ac)):
+            try:
+                c, _ = srv.accept()
+                recv_pdu(c, 5.0)
+                c.sendall(ac)
+                t0 = time.time()
+                while time.time() - t0 < 5:
+                    b = recv_pdu(c, 0.5)
+                    if b == b"" or (b and b[0] == 7):
+                        break
+                    if b and b[0] == 5:
+                        c.sendall(b"\x06\x00\x00\x00\x00\x04\x00\x00\x00\x00")
+                        break
+                c.close()
+            except OSError:
+                pass
+
+        t = threading.Thread(target=peer, daemon=True)
+        t.start()
+        fsm, exc = [], []
+        ae = AE("REQUESTOR")
+        ae.acse_timeout = ae.dimse_timeout = ae.network_timeout = 8
+        ae.add_requested_context("1.2.840.10008.1.1")
+        try:
+            a = ae.associate("127.0.0.1", port, evt_handlers=[(evt.EVT_FSM_TRANSITION, lambda e: fsm.append(int(e.fsm_event[3:])))])
+            est = bool(a.is_established)
+            if est:
+                a.release()
+        except Exception as e:  # noqa: BLE001
+            est = False
+            exc.append(f"{type(e).__name__}: {e}")
+        t.join(8)
+        srv.close()
+        after = [e for e in fsm if e in (3, 4, 16, 17, 19)]
+        try:
+            p = A_ASSOCIATE_AC()
+            p.decode(bytes(ac))
+            dec = True
+        except Exception:  # noqa: BLE001
+            dec = False
+        out.append({"base": "ac/requestor", "op": "variant", "n": len(ac), "rsv": -1 if fill is None else fill, "pv": 1, "conformant": True, "allowed": [3],
+                    "first": after[0] if after else 0, "events": after, "escaped": bool(exc), "exc": exc, "hung": False, "decoded": dec,
+                    "stable": True,          # (stability of the decoded value is judged on the acceptor-side inputs)
+                    "accepted_equal": est, "answer": "established" if est else "not established", "bytes": list(ac)})
+    return out
+
+
 def run_case(lab: Lab, inp, base_values):
     from neg_lab import recv_pdu
     import pdu_lab
@@ -197,6 +262,7 @@ def run(ctx: Ctx) -> int:
     if errs:
         raise MachineryError(errs[0])
     obs = [o for o_ in outs for o in o_]
+    obs += requestor_ac_cases()
     for k, o in enumerate(obs):
         o["id"] = k + 1
     keep = ("id", "conformant", "allowed", "first", "escaped", "hung", "decoded", "stable", "accepted_equal")
